@@ -92,11 +92,13 @@ def run_case(case, env, res, tmpdir, state):
     if case.get("set_method"):
         image.set_render_method(case["set_method"])
 
+    how = case["how"]
+    if how == "iterate" and case["source"] == "anim":
+        return run_iterate(case, image, env, res, cols, rows)
     W, H = image.rendered_size
     if W > cols or H > rows:
         res.count("skipped: does not fit terminal")
         return
-    how = case["how"]
     spec = "1.1" + case["alpha"] + (("+" + case["stylespec"]) if case["stylespec"] else "")
     if how == "str":
         out = str(image)
@@ -137,6 +139,34 @@ def run_case(case, env, res, tmpdir, state):
             case,
         )
     image.close()
+
+
+def run_iterate(case, image, env, res, cols, rows):
+    """Frames yielded by an image iterator are render outputs too: each must occupy the
+    rectangle the image advertises at that moment (sizes change between loops, and back)."""
+    from term_image.image import ImageIterator
+
+    spec = "1.1" + case["alpha"] + (("+" + case["stylespec"]) if case["stylespec"] else "")
+    sizes = case["iter_sizes"]
+    it = ImageIterator(image, -1, spec, case["iter_cached"])
+    n = case["frames"]
+    try:
+        for loop, (w, h) in enumerate(sizes):
+            image.set_size(min(w, cols), min(h, rows))
+            W, H = image.rendered_size
+            for f in range(n):
+                out = next(it)
+                errs, vt = check_rect(out, W, H, rows, cols, 0, 0, vt_personality(env.persona_name))
+                res.count("renders executed")
+                res.count("iterator frames executed")
+                res.count("cells verified", W * H)
+                if errs:
+                    res.violation("C01:%s:iterator:%s" % (case["style"], errs[0][0]), "%s ImageIterator(cached=%s) loop %d frame %d after sizes %s: rendered_size %dx%d: %r" % (case["style"], case["iter_cached"], loop, f, sizes[: loop + 1], W, H, errs[:3]), case)
+                    return
+    finally:
+        it.close()
+        image.close()
+    res.case((case["style"], "iterate", env.persona_name, str(sizes), case["iter_cached"]))
 
 
 def gen_random(rnd, persona):
@@ -198,6 +228,14 @@ def gen_random(rnd, persona):
     )
     if rnd.random() < 0.3:
         case["ratio"] = rnd.choice([0.5, 0.25, 1.0, round(rnd.uniform(0.1, 3), 3)])
+    if source == "anim" and rnd.random() < 0.4:
+        case["how"] = "iterate"
+        a = [rnd.randint(1, 10), rnd.randint(1, 6)]
+        b = [rnd.randint(1, 10), rnd.randint(1, 6)]
+        case["iter_sizes"] = rnd.choice([[a, b, a], [a, b, a, b], [a, a, b], [a, b, b, a]])
+        case["iter_cached"] = rnd.choice([True, True, False, 100])
+        if "A" in case["stylespec"]:
+            case["stylespec"] = case["stylespec"].replace("A", "W")
     if source == "anim":
         case["frames"] = rnd.randint(2, 4)
         case["frame"] = rnd.randrange(case["frames"])
